@@ -8,7 +8,9 @@
    ∧ in every body: every mode is one of the four, all nodes between two shifts carry one mode,
      a reference carries the mode recorded for its definition, an up-shift `f /\ t A` has
      `up f t`, a down-shift `f \/ t A` has `down f t`, the continuation of a shift lives at the
-     shift's source mode.
+     shift's source mode
+   ∧ the mode recorded for a definition is the mode of its body (without this clause "a reference
+     carries its definition's mode" would say nothing about what the reference unfolds to).
 
    The specification speaks about converted types (a mode in every node).  A head annotation of
    the SOURCE placed directly on a shift does not survive conversion (finding F15); the
@@ -70,8 +72,12 @@ Record WellFormed (D : tenv) : Prop := {
   wf_names : NoDup (names D);
   wf_labels : forall d, In d D -> LabelsOK D (td_body d);
   wf_contractive : Contractive D;
-  wf_modes : forall d, In d D -> ModesOK D (mode_of (td_body d)) (td_body d)
+  wf_modes : forall d, In d D -> ModesOK D (mode_of (td_body d)) (td_body d);
+  wf_defmode : forall d, In d D -> td_mode d = mode_of (td_body d)
 }.
+
+(* the part of WellFormed that does not mention the recorded modes of the definitions themselves *)
+Definition DefModesAgree (D : tenv) : Prop := forall d, In d D -> td_mode d = mode_of (td_body d).
 
 (* a type used as an annotation (let / prc / assuming / typed cut) over D *)
 Definition WellFormedType (D : tenv) (t : sty) : Prop :=
